@@ -52,7 +52,9 @@ fn control_flow(ctx: &Ctx, homes: &(dyn Fn(Kind) -> bool + Sync), rich_entries: 
     let mut st = TreeStats::default();
     let starts = build_starts(ctx, homes, &mut st);
     let all = all_starts(&starts);
-    let (core_hi, small_hi, rich_hi, reach_hi, reach_depth) = ctx.tier.pick((6, 4, 3, 3, 1), (7, 5, 4, 4, 2));
+    // thorough: all 98.6 M control-flow programs of up to 8 nodes (VERIF_CORE_MAX overrides)
+    let deep: usize = std::env::var("VERIF_CORE_MAX").ok().and_then(|s| s.parse().ok()).unwrap_or(8);
+    let (core_hi, small_hi, rich_hi, reach_hi, reach_depth) = ctx.tier.pick((6, 4, 3, 3, 1), (deep, 5, 4, 4, 2));
     st = st.merge(drive(ctx, &Core::new(1, core_hi), &[starts.genesis.clone()], false, homes, &sampler));
     st = st.merge(drive(ctx, &Core::new(1, small_hi), &starts.fixed, false, homes, &sampler));
     st = st.merge(drive(ctx, &Rich::new(1, rich_hi, rich_entries), &all[..ctx.tier.pick(2, all.len())], false, homes, &sampler));
